@@ -64,7 +64,7 @@ def run_one(sc, prefix=(), seed=0, keep=False):
                 pf, ps, da = sc.get('pf', 0xD0), PA, PA
                 pgn = (dp << 16) | (pf << 8)
             elif sc['kind'] == 'bam2':
-                pf, ps, da = 0xFE, 0x42, 255
+                pf, ps, da = sc.get('pf', 0xFE), sc.get('ge', 0x42), 255
                 pgn = (dp << 16) | (pf << 8) | ps
             else:
                 pf, ps, da = sc.get('pf', 0xD0), 255, 255
@@ -93,7 +93,7 @@ def run_one(sc, prefix=(), seed=0, keep=False):
                 pgn = (dp << 16) | (sc.get('pf', 0xD0) << 8)
                 da = SA
             else:
-                pgn = (dp << 16) | (0xFE << 8) | 0x42
+                pgn = (dp << 16) | (sc.get('pf', 0xFE) << 8) | sc.get('ge', 0x42)
                 da = 255
             peer.originate(da, pgn, list(data), limit=sc.get('limit', 255), sess=sc.get('sess', 0))
             w.run_for(2.0 + npk * 0.45)
@@ -220,13 +220,22 @@ def scenarios(tier):
                     items.append((sc, bound))
             sc = {'dll': dll, 'role': 'resp', 'kind': 'bam', 'size': size, 'win': 1, 'sess': size % 4}
             items.append((sc, 1 if size not in large else 0))
+        # (c) broadcast of PDU2 groups over the corners of the PGN space: first / last PDU2 format byte, group extensions
+        #     0x00, 0x01, 0xFE, 0xFF (0xFF is not a destination here), both data pages; sent and received by the stack
+        for pf in (0xF0, 0xFE, 0xFF):
+            for ge in (0x00, 0x01, 0xFE, 0xFF):
+                for dp in (0, 1):
+                    size = small[(pf + ge + dp) % 3]
+                    items.append(({'dll': dll, 'role': 'orig', 'kind': 'bam2', 'size': size, 'win': 1, 'pat': dp, 'pf': pf, 'ge': ge, 'dp': dp}, 0))
+                    items.append(({'dll': dll, 'role': 'resp', 'kind': 'bam', 'size': size, 'win': 1, 'sess': ge % 4, 'pf': pf, 'ge': ge, 'dp': dp}, 0))
     return items
 
 
 RULE = ("scenario = layer x role of the stack (originator / responder / BAM sender / BAM receiver) x size x the stack's "
         "window x the peer's RTS limit; the conforming reference peer's free choices (grant per CTS 1..min(limit, "
         "remaining), 0..3 hold CTS spaced {0.4, 0.5, 0.505} s, reply latency {0,1,50,150 ms}, packet spacing {0,50,190 ms}, BAM spacing "
-        "{50,100,200} / {10,50,200} ms) are choice points explored with deviation bound 1 (small sizes thorough: 2); "
+        "{50,100,200} / {10,50,200} ms) are choice points explored with deviation bound 1 (small sizes thorough: 2); broadcasts of PDU2 "
+        "groups over PF {F0,FE,FF} x group extension {00,01,FE,FF} x data page, sent and received; "
         "distinct by (scenario, choices), all non-trivial (every case is a multi-packet transfer)")
 ASSUME = ["the reference codec / peer are the harness author's implementation of the SAE layouts (J1939-22: from memory, "
           "normative text not available offline)", "retransmission requests are outside the property's envelope and are not generated",
